@@ -575,9 +575,11 @@ theorem filterRows_of_ok {c : Cond} {fields : List Field} {rows : List Row}
 
 /-! ### The pipeline -/
 
-theorem aggregateRows_noAggr {sl : List DerivedCol} (gb : List ColRef) (rows : List Row)
-    (h : hasAggr sl = false) : aggregateRows sl gb rows = .ok rows := by
-  simp [aggregateRows, h]
+/-- without an aggregate in the select list AND without GROUP BY the projected rows pass through
+(`SELECT a FROM t GROUP BY a` does group: see `Mkdb/Proofs/GroupNoAgg.lean`) -/
+theorem aggregateRows_noAggr {sl : List DerivedCol} {gb : List ColRef} (rows : List Row)
+    (h : hasAggr sl = false) (hgb : gb = []) : aggregateRows sl gb rows = .ok rows := by
+  simp [aggregateRows, h, hgb]
 
 /-- OFFSET then LIMIT -/
 def cut (lim : LimitOffset) (l : List Row) : List Row :=
@@ -611,7 +613,7 @@ theorem evaluateSelect_from (fetch : Bytes → Option Table) (q : Select) (tr : 
   cases q.where_ <;> rfl
 
 theorem selectTail_ok {q : Select} {fields : List Field} {filtered rows : List Row}
-    {hdr : List Field} (hagg : hasAggr q.list = false)
+    {hdr : List Field} (hagg : hasAggr q.list = false) (hgb : q.groupBy = [])
     (h : selectTail q fields filtered = .ok (rows, hdr)) :
     ∃ projected keys,
       projectColumns q.list fields filtered = .ok (projected, hdr) ∧
@@ -621,7 +623,7 @@ theorem selectTail_ok {q : Select} {fields : List Field} {filtered rows : List R
   unfold selectTail at h
   rw [bind_eq_ok] at h
   obtain ⟨⟨projected, hdr'⟩, hproj, h⟩ := h
-  simp only [aggregateRows_noAggr _ _ hagg, bind_ok] at h
+  simp only [aggregateRows_noAggr _ hagg hgb, bind_ok] at h
   rw [bind_eq_ok] at h
   obtain ⟨sorted, hsort, h⟩ := h
   simp only [pure_eq_ok, X.ok.injEq, Prod.mk.injEq] at h
@@ -631,11 +633,11 @@ theorem selectTail_ok {q : Select} {fields : List Field} {filtered rows : List R
   refine ⟨projected, keys, hproj, hkeys, hcomp, ?_⟩
   rw [← hrows, hsorted]; rfl
 
-/-- **A single-table SELECT without aggregates is filter → project → sort → offset → limit**,
-in that order and nothing else. -/
+/-- **A single-table SELECT without aggregates and without GROUP BY is
+filter → project → sort → offset → limit**, in that order and nothing else. -/
 theorem select_single_table {fetch : Bytes → Option Table} {q : Select} {t : TableName}
     {rows : List Row} {hdr : List Field}
-    (hfrom : q.from_ = some (.table t)) (hagg : hasAggr q.list = false)
+    (hfrom : q.from_ = some (.table t)) (hagg : hasAggr q.list = false) (hgb : q.groupBy = [])
     (h : evaluateSelect fetch q = .ok (rows, hdr)) :
     ∃ tbl src fields filtered projected keys,
       fetch t.name = some tbl ∧ src = tbl.rows ∧ fields = tableFields t tbl ∧
@@ -654,7 +656,7 @@ theorem select_single_table {fetch : Bytes → Option Table} {q : Select} {t : T
   simp only [] at h
   rw [bind_eq_ok] at h
   obtain ⟨filtered, hfilt, h⟩ := h
-  obtain ⟨projected, keys, hproj, hkeys, hcomp, hrows⟩ := selectTail_ok hagg h
+  obtain ⟨projected, keys, hproj, hkeys, hcomp, hrows⟩ := selectTail_ok hagg hgb h
   unfold fetchTable at hfetch
   split at hfetch
   · cases hfetch
@@ -753,7 +755,7 @@ permutation of the projected rows (`off = 0` without OFFSET, no `take` without L
 values count as `0` via `Int.toNat`); in particular the final rows are themselves sorted. -/
 theorem limit_offset_spec {fetch : Bytes → Option Table} {q : Select} {t : TableName}
     {rows : List Row} {hdr : List Field}
-    (hfrom : q.from_ = some (.table t)) (hagg : hasAggr q.list = false)
+    (hfrom : q.from_ = some (.table t)) (hagg : hasAggr q.list = false) (hgb : q.groupBy = [])
     (h : evaluateSelect fetch q = .ok (rows, hdr)) :
     ∃ keys fields filtered projected sorted,
       projectColumns q.list fields filtered = .ok (projected, hdr) ∧
@@ -766,7 +768,7 @@ theorem limit_offset_spec {fetch : Bytes → Option Table} {q : Select} {t : Tab
               if q.lim.limitActive then d.take q.lim.limit.toNat else d) ∧
       Spec.sortedBy keys rows = true := by
   obtain ⟨tbl, src, fields, filtered, projected, keys, _, _, _, _, hproj, hkeys, hcomp, hrows⟩ :=
-    select_single_table hfrom hagg h
+    select_single_table hfrom hagg hgb h
   refine ⟨keys, fields, filtered, projected, _, hproj, resolveSortKeys_spec hkeys, rfl,
     sortRows_perm _ _, sortRows_sorted _ _, sortRows_pairwise _ _ hcomp, ?_, ?_⟩
   · rw [hrows, cut_eq]
@@ -836,6 +838,7 @@ def exQuery : Select :=
 -- hypotheses of `select_single_table` / `limit_offset_spec`
 example : exQuery.from_ = some (.table ⟨[116], none⟩) := rfl
 example : hasAggr exQuery.list = false := rfl
+example : exQuery.groupBy = [] := rfl
 example : evaluateSelect exFetch exQuery =
     .ok ([[.str [97, 98], .int 1], [.str [98], .int 3]], [⟨[116], [98]⟩, ⟨[116], [97]⟩]) := rfl
 
